@@ -51,7 +51,7 @@ def representable(r, v, no_trail):
 
 
 def worker(version, args):
-    common.lib_setup()
+    common.lib_setup(xs_check=True)
     from AoE2ScenarioParser.scenarios.aoe2_de_scenario import AoE2DEScenario
     from AoE2ScenarioParser.helper.bytes_conversions import _no_string_trail
     rng = random.Random(f"C12:{args['seed']}:{version}")
